@@ -7,6 +7,7 @@
 (*              budgets 1..MaxB, n_runs 1..3, new observations = the whole grid plus one point outside on     *)
 (*              either side.  Metric / float type / calling form: all variants for n <= 3 - f,   *)
 (*              one variant picked by a checksum of the input otherwise (half of them f64 + l2). *)
+(*  Every case also names one of 8 memory layouts (reversed / strided views, F order) for its records.  *)
 (*  "restart" : datasets as above (n >= 2), k, initialiser random / k-means++ (n_runs 1..Runs)   *)
 (*              and k-means|| (one run), seeds, budgets 1, 2, 3 in turn or run to convergence.   *)
 EXTENDS Integers, Sequences, FiniteSets, TLC, Json
@@ -15,7 +16,8 @@ CONSTANTS Grid1, MaxN1,      \* traj, 1 feature : points on 0..Grid1
           Grid2, MaxN2,      \* traj, 2 features: points on (0..Grid2)^2
           MaxK, MaxB,
           DeepN,             \* datasets with n <= DeepN get one more budget (denominators stay <= (DeepN+1)^(MaxB+1))
-          RGrid1, RMaxN1, RGrid2, RMaxN2, Runs, Seeds
+          RGrid1, RMaxN1, RGrid2, RMaxN2, Runs, Seeds,
+          SparseLevel, SparseSeedMax  \* k-means|| on sparse positive data: which shapes (1, 2), seeds 1..SparseSeedMax
 
 VARIABLE case
 
@@ -43,6 +45,10 @@ Variants(f) == <<
   <<"f64", IF f = 1 THEN "l1" ELSE "linf", "view">>, <<"f32", IF f = 1 THEN "l2" ELSE "l1", "owned">> >>
 VarSet(f, n, h) == IF n <= 3 - f THEN {Variants(f)[v] : v \in 1..8} ELSE {Variants(f)[(h % 8) + 1]}
 
+\* memory layout in which the harness hands the (same logical) records to fit / predict / transform
+Layouts == <<"owned", "view", "revf", "revr", "revb", "forder", "row2", "col2">>
+Layout(h) == Layouts[((h \div 4) % 8) + 1]
+
 \* tolerance as a fraction: 10^-9 (never met by a non-zero move), or 1/2, 3/2 (l2 only: the documented
 \* criterion is the euclidean distance between old and new centroids) which stop the iteration early
 Tiny == <<1, 1000000000>>
@@ -67,7 +73,8 @@ Traj ==
      \E v \in VarSet(f, n, Check(pts, c0)) :
      \E tol \in TolSet(f, n, v, Check(pts, c0)) :
        case = [kind |-> "traj",
-               inp |-> [ft |-> v[1], metric |-> v[2], form |-> v[3], f |-> f, pts |-> pts, c0 |-> c0,
+               inp |-> [ft |-> v[1], metric |-> v[2], form |-> Layout(Check(pts, c0) + Len(v[1]) + Len(v[2])),
+                        f |-> f, pts |-> pts, c0 |-> c0,
                         qs |-> Queries(f, g), ms |-> [m \in 1..(IF n <= DeepN THEN MaxB + 1 ELSE MaxB) |-> m],
                         \* restarts from the same precomputed centroids: n_runs must not change anything
                         nruns |-> <<1, 2, 1, 3>>[((Check(pts, c0) \div 32) % 4) + 1],
@@ -86,11 +93,35 @@ Restart ==
          mi == IF (h \div 8) % 2 = 0 THEN <<1, 2, 3>> ELSE <<300>>
      IN
        case = [kind |-> "restart",
-               inp |-> [ft |-> v[1], metric |-> v[2], f |-> f, pts |-> pts, k |-> k, init |-> init,
+               inp |-> [ft |-> v[1], metric |-> v[2], form |-> Layout(h + Len(init)), f |-> f, pts |-> pts, k |-> k,
+                        init |-> init,
                         seed |-> seed, runs |-> IF init = "kmpara" THEN 1 ELSE Runs, maxits |-> mi,
                         qs |-> Queries(f, g), tol |-> <<1, 1000000>>]]
 
-Init == Traj \/ Restart
+\* k-means|| on sparse, strictly positive data: n observations with d features, all 1 except one "hot"
+\* feature of value hot per observation (observation i: feature ((i-1) mod d) + 1).  Shapes are chosen
+\* with (d - 1) + hot^2 < 2 (hot - 1)^2: an observation is nearer to the origin -- which lies outside the
+\* bounding box [1, hot]^d -- than to any observation with another hot feature.  Every result must have
+\* its centroids inside the bounding box (k-means|| is not repeatable, the clause is per result).
+\* n is well above the 8k rows of the candidate buffer of k-means||, so most observations are no candidates.
+SparsePts(n, d, hot) == [i \in 1..n |-> [j \in 1..d |-> IF j = ((i - 1) % d) + 1 THEN hot ELSE 1]]
+SparseShapes ==     \* <<n, d, hot>>
+  IF SparseLevel = 0 THEN {}
+  ELSE IF SparseLevel = 1 THEN {<<40, 40, 9>>, <<40, 20, 7>>, <<30, 15, 7>>}
+  ELSE {<<40, 40, 9>>, <<40, 20, 7>>, <<30, 15, 7>>, <<36, 12, 6>>, <<24, 24, 8>>}
+Sparse ==
+  \E sh \in SparseShapes, k \in 1..2, seed \in 1..SparseSeedMax :
+    LET n == sh[1]
+        d == sh[2]
+        hot == sh[3]
+        pts == SparsePts(n, d, hot)
+    IN case = [kind |-> "restart",
+               inp |-> [ft |-> IF seed % 3 = 0 THEN "f32" ELSE "f64", metric |-> "l2",
+                        form |-> Layouts[((seed + k) % 8) + 1], f |-> d, pts |-> pts, k |-> k,
+                        init |-> "kmpara", seed |-> seed, runs |-> 1, maxits |-> <<1, 2, 300>>,
+                        qs |-> <<pts[1], pts[n], [j \in 1..d |-> 0], [j \in 1..d |-> 1]>>, tol |-> <<1, 1000000>>]]
+
+Init == Traj \/ Restart \/ Sparse
 Next == UNCHANGED case
 Emit == PrintT("CASE " \o ToJson(case))
 =============================================================================
